@@ -6,34 +6,80 @@ Import ListNotations.
 
 Definition memb (a : nat) (l : list nat) : bool := existsb (Nat.eqb a) l.
 
+(* the AgentBasedSimulation interface, as seen by managers, wrappers and trainers *)
+Record simulation (St Obs Info Act : Type) := {
+  sim_n : nat;                                   (* agents 0..n-1 *)
+  sim_learning : nat -> bool;                    (* is_agent *)
+  sim_reset : St -> St;
+  sim_step : St -> list (nat * Act) -> St;
+  sim_obs : St -> nat -> Obs * St;               (* getters that may have effects *)
+  sim_reward : St -> nat -> Z * St;
+  sim_done : St -> nat -> bool;
+  sim_all : St -> bool;
+  sim_info : St -> nat -> Info;
+  sim_next : St -> list nat                      (* DynamicOrderSimulation.next_agent *)
+}.
+Arguments sim_n {St Obs Info Act}.
+Arguments sim_learning {St Obs Info Act}.
+Arguments sim_reset {St Obs Info Act}.
+Arguments sim_step {St Obs Info Act}.
+Arguments sim_obs {St Obs Info Act}.
+Arguments sim_reward {St Obs Info Act}.
+Arguments sim_done {St Obs Info Act}.
+Arguments sim_all {St Obs Info Act}.
+Arguments sim_info {St Obs Info Act}.
+Arguments sim_next {St Obs Info Act}.
+
+Record mstate (St : Type) := { m_sim : St; m_done : list nat; m_ptr : nat }.
+Arguments m_sim {St}.
+Arguments m_done {St}.
+Arguments m_ptr {St}.
+
+Record out (Obs Info : Type) := { o_obs : list (nat * Obs); o_rew : list (nat * Z);
+                                  o_done : list (nat * bool); o_info : list (nat * Info);
+                                  o_all : bool }.
+Arguments o_obs {Obs Info}.
+Arguments o_rew {Obs Info}.
+Arguments o_done {Obs Info}.
+Arguments o_info {Obs Info}.
+Arguments o_all {Obs Info}.
+
+Inductive resp (Obs Info : Type) :=
+| RObs (obs : list (nat * Obs))     (* reset *)
+| ROut (o : out Obs Info)           (* step *)
+| RReject                           (* AssertionError before the simulation advanced *)
+| RError                            (* any other exception (e.g. empty action dict) *)
+| ROutOfFuel.
+Arguments RObs {Obs Info}.
+Arguments ROut {Obs Info}.
+Arguments RReject {Obs Info}.
+Arguments RError {Obs Info}.
+Arguments ROutOfFuel {Obs Info}.
+
+Inductive mgr := MAll | MTurn | MDyn | MTurnPrefix.
+
+(* a step carries the submitted dict and (all-step with randomize_action_input) its shuffle *)
+Inductive call (Act : Type) := CReset | CStep (acts shuffled : list (nat * Act)).
+Arguments CReset {Act}.
+Arguments CStep {Act}.
+
 Section AnySim.
-  Variables (St Obs Info Act : Type).
-  Variable n : nat.                               (* agents 0..n-1 *)
-  Variable learning : nat -> bool.                (* is_agent *)
-  Variable s_reset : St -> St.
-  Variable s_step : St -> list (nat * Act) -> St.
-  Variable s_obs : St -> nat -> Obs * St.         (* getters that may have effects *)
-  Variable s_reward : St -> nat -> Z * St.
-  Variable s_done : St -> nat -> bool.
-  Variable s_all : St -> bool.
-  Variable s_info : St -> nat -> Info.
-  Variable s_next : St -> list nat.               (* DynamicOrderSimulation.next_agent *)
+  Context {St Obs Info Act : Type}.
+  Variable Sim : simulation St Obs Info Act.
+  Notation n := (sim_n Sim).
+  Notation learning := (sim_learning Sim).
+  Notation s_reset := (sim_reset Sim).
+  Notation s_step := (sim_step Sim).
+  Notation s_obs := (sim_obs Sim).
+  Notation s_reward := (sim_reward Sim).
+  Notation s_done := (sim_done Sim).
+  Notation s_all := (sim_all Sim).
+  Notation s_info := (sim_info Sim).
+  Notation s_next := (sim_next Sim).
 
   Definition agents : list nat := seq 0 n.
   Definition order : list nat := filter learning agents.        (* the cycle of the turn manager *)
   Definition nonlearning : list nat := filter (fun a => negb (learning a)) agents.
-
-  Record mstate := { m_sim : St; m_done : list nat; m_ptr : nat }.
-
-  Record out := { o_obs : list (nat * Obs); o_rew : list (nat * Z);
-                  o_done : list (nat * bool); o_info : list (nat * Info); o_all : bool }.
-
-  Inductive resp :=
-  | RObs (obs : list (nat * Obs))     (* reset *)
-  | ROut (o : out)                    (* step *)
-  | RReject                           (* AssertionError before the simulation advanced *)
-  | RError                            (* any other exception (e.g. empty action dict) *)
-  | ROutOfFuel.
 
   (* thread a getter with effects over a list of agents *)
   Fixpoint thread {X} (g : St -> nat -> X * St) (s : St) (l : list nat) : list (nat * X) * St :=
@@ -46,7 +92,7 @@ Section AnySim.
   Definition all_in (d : list nat) : bool := forallb (fun a => memb a d) agents.
 
   (* ---------------- AllStepManager ---------------- *)
-  Definition all_reset (m : mstate) : resp * mstate :=
+  Definition all_reset (m : mstate St) : resp Obs Info * mstate St :=
     let d := nonlearning in
     let s1 := s_reset (m_sim m) in
     let live := filter (fun a => negb (memb a d)) agents in
@@ -55,7 +101,7 @@ Section AnySim.
 
   (* perm: the shuffled action list when randomize_action_input is on (oracle); the caller
      passes the submitted list itself when it is off *)
-  Definition all_step (m : mstate) (acts shuffled : list (nat * Act)) : resp * mstate :=
+  Definition all_step (m : mstate St) (acts shuffled : list (nat * Act)) : resp Obs Info * mstate St :=
     if existsb (fun kv => memb (fst kv) (m_done m)) acts then (RReject, m)
     else
       let s1 := s_step (m_sim m) shuffled in
@@ -70,21 +116,21 @@ Section AnySim.
        {| m_sim := s3; m_done := d'; m_ptr := m_ptr m |}).
 
   (* ---------------- shared by turn-based and dynamic-order ---------------- *)
-  Definition add_report (s : St) (a : nat) (o : out) : out * St :=
+  Definition add_report (s : St) (a : nat) (o : out Obs Info) : out Obs Info * St :=
     let (ob, s1) := s_obs s a in
     let (r, s2) := s_reward s1 a in
     ({| o_obs := o_obs o ++ [(a, ob)]; o_rew := o_rew o ++ [(a, r)];
         o_done := o_done o ++ [(a, s_done s2 a)]; o_info := o_info o ++ [(a, s_info s2 a)];
         o_all := o_all o |}, s2).
 
-  Definition empty_out (all : bool) : out :=
+  Definition empty_out (all : bool) : out Obs Info :=
     {| o_obs := []; o_rew := []; o_done := []; o_info := []; o_all := all |}.
 
-  Definition set_all (o : out) (b : bool) : out :=
+  Definition set_all (o : out Obs Info) (b : bool) : out Obs Info :=
     {| o_obs := o_obs o; o_rew := o_rew o; o_done := o_done o; o_info := o_info o; o_all := b |}.
 
   (* the simulation is done: report every agent not yet in done_agents *)
-  Fixpoint flush (s : St) (d : list nat) (l : list nat) (o : out) : out * St :=
+  Fixpoint flush (s : St) (d : list nat) (l : list nat) (o : out Obs Info) : out Obs Info * St :=
     match l with
     | [] => (o, s)
     | a :: l' => if memb a d then flush s d l' o
@@ -92,7 +138,7 @@ Section AnySim.
     end.
 
   (* ---------------- TurnBasedManager ---------------- *)
-  Definition turn_reset (m : mstate) : resp * mstate :=
+  Definition turn_reset (m : mstate St) : resp Obs Info * mstate St :=
     match order with
     | [] => (RError, m)                                 (* next() on an empty cycle *)
     | a0 :: _ =>
@@ -105,7 +151,7 @@ Section AnySim.
     end.
 
   (* the tree before the fix: the pointer survives reset *)
-  Definition turn_reset_prefix (m : mstate) : resp * mstate :=
+  Definition turn_reset_prefix (m : mstate St) : resp Obs Info * mstate St :=
     match order with
     | [] => (RError, m)
     | a0 :: _ =>
@@ -116,9 +162,9 @@ Section AnySim.
         (RObs [(a, ob)], {| m_sim := s2; m_done := d; m_ptr := S (m_ptr m) mod length order |})
     end.
 
-  Inductive sres := SOk (o : out) (s : St) (d : list nat) (p : nat) | SFuel.
+  Inductive sres := SOk (o : out Obs Info) (s : St) (d : list nat) (p : nat) | SFuel.
 
-  Fixpoint turn_search (fuel : nat) (s : St) (d : list nat) (p : nat) (o : out) : sres :=
+  Fixpoint turn_search (fuel : nat) (s : St) (d : list nat) (p : nat) (o : out Obs Info) : sres :=
     match fuel with
     | O => SFuel
     | S fuel' =>
@@ -134,8 +180,8 @@ Section AnySim.
                let (o1, s1) := add_report s a o in SOk o1 s1 d p'
     end.
 
-  Definition turn_step_gen (check_all_keys : bool) (m : mstate) (acts : list (nat * Act))
-    : resp * mstate :=
+  Definition turn_step_gen (check_all_keys : bool) (m : mstate St) (acts : list (nat * Act))
+    : resp Obs Info * mstate St :=
     match acts with
     | [] => (RError, m)                                  (* next(iter({})) *)
     | (a0, _) :: _ =>
@@ -159,12 +205,12 @@ Section AnySim.
   Definition turn_step_prefix := turn_step_gen false.
 
   (* ---------------- DynamicOrderManager ---------------- *)
-  Definition dyn_reset (m : mstate) : resp * mstate :=
+  Definition dyn_reset (m : mstate St) : resp Obs Info * mstate St :=
     let s1 := s_reset (m_sim m) in
     let (obs, s2) := thread s_obs s1 (s_next s1) in
     (RObs obs, {| m_sim := s2; m_done := []; m_ptr := m_ptr m |}).
 
-  Fixpoint dyn_loop (s : St) (d : list nat) (l : list nat) (o : out) : out * St * list nat :=
+  Fixpoint dyn_loop (s : St) (d : list nat) (l : list nat) (o : out Obs Info) : out Obs Info * St * list nat :=
     match l with
     | [] => (o, s, d)
     | a :: l' =>
@@ -178,7 +224,7 @@ Section AnySim.
                let (o1, s1) := add_report s a o in dyn_loop s1 d l' o1
     end.
 
-  Definition dyn_step (m : mstate) (acts : list (nat * Act)) : resp * mstate :=
+  Definition dyn_step (m : mstate St) (acts : list (nat * Act)) : resp Obs Info * mstate St :=
     if existsb (fun kv => memb (fst kv) (m_done m)) acts then (RReject, m)
     else
       let s1 := s_step (m_sim m) acts in
@@ -190,12 +236,7 @@ Section AnySim.
         (ROut o, {| m_sim := s2; m_done := d; m_ptr := m_ptr m |}).
 
   (* ---------------- histories ---------------- *)
-  Inductive mgr := MAll | MTurn | MDyn | MTurnPrefix.
-
-  (* a step carries the submitted dict and (all-step with randomize_action_input) its shuffle *)
-  Inductive call := CReset | CStep (acts shuffled : list (nat * Act)).
-
-  Definition do_call (k : mgr) (m : mstate) (c : call) : resp * mstate :=
+  Definition do_call (k : mgr) (m : mstate St) (c : call Act) : resp Obs Info * mstate St :=
     match k, c with
     | MAll, CReset => all_reset m
     | MAll, CStep a sh => all_step m a sh
@@ -207,29 +248,13 @@ Section AnySim.
     | MDyn, CStep a _ => dyn_step m a
     end.
 
-  Fixpoint run (k : mgr) (m : mstate) (cs : list call) : list resp * mstate :=
+  Fixpoint run (k : mgr) (m : mstate St) (cs : list (call Act)) : list (resp Obs Info) * mstate St :=
     match cs with
     | [] => ([], m)
     | c :: cs' => let (r, m1) := do_call k m c in
                   let (rs, m2) := run k m1 cs' in (r :: rs, m2)
     end.
 
-  Definition init (s : St) : mstate := {| m_sim := s; m_done := []; m_ptr := 0 |}.
+  Definition init (s : St) : mstate St := {| m_sim := s; m_done := []; m_ptr := 0 |}.
 
 End AnySim.
-
-Arguments o_obs {Obs Info}.
-Arguments o_rew {Obs Info}.
-Arguments o_done {Obs Info}.
-Arguments o_info {Obs Info}.
-Arguments o_all {Obs Info}.
-Arguments RObs {Obs Info}.
-Arguments ROut {Obs Info}.
-Arguments RReject {Obs Info}.
-Arguments RError {Obs Info}.
-Arguments ROutOfFuel {Obs Info}.
-Arguments CReset {Act}.
-Arguments CStep {Act}.
-Arguments m_sim {St}.
-Arguments m_done {St}.
-Arguments m_ptr {St}.
